@@ -10,6 +10,7 @@ package c11
 import (
 	"encoding/json"
 	"fmt"
+	"math/rand"
 	"os"
 	"os/exec"
 	"path/filepath"
@@ -30,6 +31,9 @@ import (
 type tmpl struct {
 	ID  string `json:"id"`
 	Seq string `json:"seq"`
+	// Ann: annotations the template already carries (a template that is itself the product of an
+	// earlier PCR describes that PCR under the very names this one writes)
+	Ann map[string]any `json:"ann,omitempty"`
 }
 
 type outRec struct {
@@ -109,7 +113,25 @@ func convert(rs obiseq.BioSequenceSlice) []outRec {
 }
 
 func bioseq(t tmpl) *obiseq.BioSequence {
-	return obiseq.NewBioSequence(t.ID, []byte(t.Seq), "")
+	s := obiseq.NewBioSequence(t.ID, []byte(t.Seq), "")
+	for k, v := range t.Ann {
+		if f, ok := v.(float64); ok && f == float64(int(f)) { // after the JSON round trip of a helper job
+			v = int(f)
+		}
+		s.SetAttribute(k, v)
+	}
+	return s
+}
+
+// earlierPCR: the annotations left on a template by a previous amplification.
+func earlierPCR(r *rand.Rand) map[string]any {
+	return map[string]any{
+		"direction":      []string{"forward", "reverse"}[r.Intn(2)],
+		"forward_primer": "ggggggggggggggg", "reverse_primer": "ccccccccccccccc",
+		"forward_match": "ggggggggagggggg", "reverse_match": "cccccccccccctcc",
+		"forward_error": 1 + r.Intn(3), "reverse_error": 4 + r.Intn(3),
+		"count": 1 + r.Intn(5),
+	}
 }
 
 // runJob executes the job in this process.
